@@ -1,19 +1,25 @@
 (* SSA/C10Check.v -- the per-case checker evaluated in the kernel by the C10 case files.
    A case = the function f given to falcon::transformation::ssa_transformation, what it returned
    (under catch_unwind), and a few initial states.
-   fst (tie)    : no Gallina model of the algorithm is compared yet -> true.
+   fst (tie)    : SsaModel.ssa_model f (Gallina transcription of the algorithm over the C11 graph models)
+                  = the observed result, phi nodes of a block compared as a set.
    snd (oracle) : the transformation succeeded, the VERIFIED validator accepts (f, f')
                   (SsaSound.ssa_check_sound: valid SSA + lock-step simulation for every input), and --
                   as a search aid that yields a concrete diverging state when the validator rejects,
                   and as a cross-check of the theorem when it accepts -- Sem on f and SemSSA on f'
                   run side by side from the case's initial states agree step by step. *)
 From Coq Require Import ZArith List Bool NArith.
-From Falcon Require Import Base.Res IL.Const IL.Expr IL.Func IL.Loc Exec.Sem SSA.SemSSA SSA.FuncEq SSA.SsaCheck.
+From Falcon Require Import Base.Res IL.Const IL.Expr IL.Func IL.Loc Exec.Sem SSA.SemSSA SSA.FuncEq SSA.SsaCheck SSA.SsaModel.
 Import ListNotations.
 Local Open Scope Z_scope.
 
 Inductive case :=
 | KSsa (f : func) (obs : res func) (inits : list sstate) (fuel : nat).
+
+(* initial memory: n bytes from [base], given as one numeral (byte k = digit k in base 256) *)
+Fixpoint bytes_of (n : nat) (a v : Z) : list (Z * Z) :=
+  match n with O => [] | S n => (a, v mod 256) :: bytes_of n (a + 1) (v / 256) end.
+Definition init_mem (big : bool) (base : Z) (n : nat) (v : Z) : bmem := mkbmem big (bytes_of n base v).
 
 Definition key_name_eqb (a b : skey) : bool := N.eqb (fst a) (fst b).
 Definition ev_agree (a b : event) : bool :=
@@ -51,7 +57,7 @@ Definition run_agree (f f' : func) (fuel : nat) (st : sstate) : bool :=
 Definition ck (k : case) : bool * bool :=
   match k with
   | KSsa f obs inits fuel =>
-      (true,
+      (model_tie f obs,
        match obs with
        | Ok f' => ssa_check f f' && forallb (run_agree f f' fuel) inits
        | _ => false
